@@ -17,8 +17,7 @@
    concatenation or Sprintf — refactors/C08-r1..r3, C14-r1 leave it intact) but at what it
    computes (a comparator that overflows, a key dropped by a colliding string key, a changed
    rendering, another bool test break it — seeded C08-11, -12, -22, -31, -32, C13-21).  It is bounded
-   by the family, not a proof for all definitions; the tag parser (sortFieldDescFromTag) is not
-   translated (GSortTagModel.v + the farm).                                                  *)
+   by the family, not a proof for all definitions.                                                  *)
 From Coq Require Import List String Bool.
 From GT Require Import GSortModel GSortGoModel.
 From GTgen Require Import GsortGoGen.
@@ -27,9 +26,21 @@ Import ListNotations.
 Lemma tie_gsort_go : go_agrees gen_prog = true.
 Proof. vm_compute. reflexivity. Qed.
 
+(* the tag parser: sortFieldDescFromTag + sfdFromLine (and what they reach), translated as well
+   and run on the raw struct-tag text of 2846 tag lists (0..3 pairs over the keys gsort / json /
+   xgsort and 17 option texts: well-formed, bare, signed and zero-padded priorities, the ends of
+   int64 and one beyond, malformed ones): the same refusals and the same (sorter, priority,
+   accessor) triples as GSortTagModel.parse_all o gsort_options.  reflect.StructTag.Lookup,
+   strings.Split(.., ","), strings.Replace(.., 1), strconv.Atoi / Quote are primitives of the
+   interpreter (values without escape sequences).  A pointer-receiver method called on a local
+   VALUE (its address is taken) is outside the subset: the tie then fails rather than guess. *)
+Lemma tie_gsort_go_tags : tags_agree gen_prog = true.
+Proof. vm_compute. reflexivity. Qed.
+
 (* the family is not a family of refusals *)
 Lemma tie_gsort_go_nonvacuous : Nat.leb 200 go_family_accepted = true.
 Proof. vm_compute. reflexivity. Qed.
 
 Print Assumptions tie_gsort_go.
+Print Assumptions tie_gsort_go_tags.
 Print Assumptions tie_gsort_go_nonvacuous.
